@@ -21,6 +21,14 @@ CHECKS['C10'] = dict(level='other',
    text='Deductive: each operation is proved to be the reference model transition -- FlagOp.apply, PermanentFlags/SessionFlags.intersect, SessionFlags.update, SequenceSet._get_range (RFC meaning of n, *, a:b, reversed, beyond the end), SynchronizedMessages.get_uids/get_all (exactly the addressed messages with their ranks) and the dict MailboxData copy/move/delete/update postconditions with full frames. Bounded: the real server (BaseSession/ConnectionState glue, flatten as a union) is compared with an independently written reference model on all single commands and pairs of a stated alphabet and on seeded longer programs.',
    note='SequenceSet.flatten enters get_uids/get_all through a ghost denotation (not proved to be the union of _get_range); refinement composes over programs is a paper lemma; maildir is not run; APPEND flags/date only through the bounded run.',
    ref='6 C10')
+CHECKS['C12'] = dict(level='proof',
+   text='The real BaseSession and ConnectionState source is verified against an abstract backend in which every backend call is an effect checked at its call site: no flag change, removal or \\Recent claim reaches the selected mailbox while the selection is read-only; nothing is inserted into a read-only mailbox; add_recent only reaches read-write selections (SelectedSet.any_selected proved never to return a read-only one); do_fetch establishes set_seen => not readonly; do_close answers OK, deselects and raises nothing. All obligations discharged by z3; a bounded run of every message command inside EXAMINE on the real server is reported separately.',
+   note='The backend is abstract (a backend that mutates inside get()/find() would not be seen); mailbox ids identify mailboxes; the bounded part is exhaustive only on its stated scope.',
+   ref='6 C12')
+CHECKS['C05'] = dict(level='other',
+   text='Deductive: the four refusal branches of ConnectionState.do_command answer BAD, dispatch nothing and leave _session/_selected untouched; do_select clears first, selects exactly the requested name (read-only for EXAMINE) and leaves none selected on failure; do_close always answers OK and deselects. Bounded: IMAPConnection._run_state (AUTHENTICATE/IDLE dispatch around the gate) and the composition are checked exhaustively for all command sequences of length <= 2 over the complete command set after six state prefixes against the RFC 3501 automaton, with data dumps around every refused command.',
+   note='_run_state is outside the verifier subset (loop/try nest): bounded only; do_* methods are abstract inside do_command.',
+   ref='6 C05')
 NOT_YET = {}
 def main():
     props = [json.loads(l) for l in open(os.path.join(HERE, 'properties.jsonl'))]
